@@ -175,6 +175,8 @@ func C07(sp *spec.Spec, genDir string, mounted map[string][][2]string) *Verdict 
 			switch {
 			case (strings.Contains(d, "xample") || strings.Contains(d, ".default")) && strings.Contains(d, " vs ["):
 				cls = "bytes-example"
+			case strings.Contains(d, "xample") && (strings.Contains(d, ": <nil> vs map[]") || strings.Contains(d, ": <nil> vs []")):
+				cls = "nil-collection-example"
 			case strings.Contains(d, "escription: \n"):
 				cls = "description-leading-newline"
 			case strings.Contains(d, "escription"):
